@@ -2,6 +2,7 @@ import Py4hwV.Drv.Proto
 import Py4hwV.Verilog.SExp
 import Py4hwV.Emit.FlatText
 import Py4hwV.Verilog.EmitMD
+import Py4hwV.Verilog.EmitMDOf
 /- C03 emit-model driver (session): for which designs is well-formedness of the REAL text PROVED by `C03Emit.emit_wf_flat`?
      design <sexp>     the parsed real text (harness/vparse.py)                                   -> ok | parse-error
      src <sexp>        the flat description imported from the live circuit (same format as lean/Drv/C01Flat.lean; the
@@ -10,6 +11,12 @@ import Py4hwV.Verilog.EmitMD
                        -> proved | text-differs | fails <failed conditions of FlatSrc.checks / names>
                        (`proved`: the hypotheses of `C03Emit.real_text_wf` hold for this text)
      hs <sexp>         the level-free hierarchical description `C03Emit.HSrc` (harness/c03.py export_hs)        -> ok | parse-error
+                       after an `hsrc` of the same design (no `design` request in between): -> ok | differs | parse-error, is the
+                       python listing equal to the stored `S.toHS`? (the stored description stays `S.toHS`)
+     hsrc <sexp>       C01's NESTED description `(hsrc depth clk (widths …) <mod> (order …))` (harness/c01.py HierExporter, the
+                       format lean/Drv/C01Hier.lean reads; readers copied from there) = `S : FlatM.HierSrc`; stores the level-free
+                       listing `S.toHS` (Verilog/EmitMDOf.lean) for `hcheck`.  `C03Emit.toHS_emit : S.toHS.emit = S.emit`, so
+                       `hcheck` = proved means the hypotheses of `C03Emit.real_text_wf_hierSrc` hold        -> ok | parse-error
      hcheck            parsed text = `HSrc.emit` and `HSrc.okb`  -> proved | text-differs | fails <modules whose conditions fail>
      wf                `WF.check` of the parsed text (consistency with the theorem)                 -> ok | errors -/
 open Proto V FlatM C03Emit
@@ -18,6 +25,18 @@ structure Sess where
   d : Option Design := none
   s : Option FlatSrc := none
   h : Option HSrc := none
+  hs0 : Option HSrc := none        -- `S.toHS` of the last `hsrc` request of the current design
+
+/- decidable equality of descriptions, only for the `hs`-after-`hsrc` comparison (instances local to this driver) -/
+deriving instance DecidableEq for FlatM.Kind
+deriving instance DecidableEq for FlatM.RLeaf
+deriving instance DecidableEq for FlatM.GKind
+deriving instance DecidableEq for FlatM.RegSrc
+deriving instance DecidableEq for C03Emit.SubRef
+deriving instance DecidableEq for C03Emit.CI
+deriving instance DecidableEq for C03Emit.MD
+deriving instance DecidableEq for C03Emit.ModD
+deriving instance DecidableEq for C03Emit.HSrc
 
 def nats? (l : List SExp) : Option (List Nat) := l.mapM nat?
 def atoms? (l : List SExp) : Option (List String) := l.mapM fun x => match x with | .atom a => some a | _ => none
@@ -78,7 +97,7 @@ def toGKind : List SExp → Option GKind
       some (.xor2 (← nat? a) (← nat? b) (← nat? r) (← nat? m) (← nat? x) (← nat? y) (← nat? m0) (← nat? m1) (← nat? m2) (← nat? m3))
   | _ => none
 
-def toGChildUnused : SExp → Option GChild
+def toGChild : SExp → Option GChild
   | .list (.atom "prim" :: rest) => do some (.kind (.prim (← toKind rest)))
   | .list (.atom "gk" :: rest) => do some (.kind (← toGKind rest))
   | .list [.atom "reg", .atom i, .atom m, hr, he, rv, d, e, r, q] => do
@@ -92,6 +111,25 @@ def toNames (l : List SExp) : Option (List (Nat × String)) :=
 def toPorts (l : List SExp) : Option (List (String × Nat)) :=
   l.mapM fun x => match x with | .list [.atom n, k] => do some (n, ← nat? k) | _ => none
 
+
+def toMod {χ : Type} (f : SExp → Option χ) : SExp → Option (FlatM.Mod χ)
+  | .list [.atom "mod", .atom mn, .list (.atom "names" :: ns), .list (.atom "inputs" :: is), .list (.atom "outputs" :: os),
+           .list (.atom "locals" :: ls), .list (.atom "children" :: cs)] => do
+      some { mname := mn, names := ← toNames ns, inputs := ← toPorts is, outputs := ← toPorts os, locals := ← nats? ls,
+             children := ← cs.mapM f }
+  | _ => none
+
+def toChildN : (n : Nat) → SExp → Option (ChildN n)
+  | 0, x => toGChild x
+  | n + 1, .list [.atom "sub", .atom i, m] => do some (.sub i (← toMod (toChildN n) m))
+  | _ + 1, x => do some (.g (← toGChild x))
+
+/-- `(hsrc depth clk (widths …) <mod> (order …))` (copy of the reader of lean/Drv/C01Hier.lean; `vorder` is not used here) -/
+def toHSrc : SExp → Option HierSrc
+  | .list [.atom "hsrc", dp, .atom clk, .list (.atom "widths" :: ws), top, .list (.atom "order" :: od)] => do
+      let n ← nat? dp
+      some { depth := n, clk := clk, widths := ← nats? ws, top := ← toMod (toChildN n) top, order := ← nats? od, vorder := [] }
+  | _ => none
 
 def toCI : SExp → Option CI
   | .list (.atom "prim" :: rest) => do some (.kind (.prim (← toKind rest)))
@@ -142,7 +180,11 @@ def failedMods (H : HSrc) : List String :=
 def stepS (ss : Sess) (line : String) : Sess × String :=
   if line.startsWith "design " then
     match readDesign (line.drop 7).toString with
-    | some d => ({ ss with d := some d }, "ok")
+    | some d => ({ ss with d := some d, hs0 := none }, "ok")
+    | none => (ss, "parse-error")
+  else if line.startsWith "hsrc " then
+    match (readS (line.drop 5).toString).bind toHSrc with
+    | some S => ({ ss with h := some S.toHS, hs0 := some S.toHS }, "ok")
     | none => (ss, "parse-error")
   else if line.startsWith "src " then
     match (readS (line.drop 4).toString).bind toSrc with
@@ -158,7 +200,10 @@ def stepS (ss : Sess) (line : String) : Sess × String :=
     | _, _ => (ss, "bad-op")
   else if line.startsWith "hs " then
     match (readS (line.drop 3).toString).bind toHS with
-    | some h => ({ ss with h := some h }, "ok")
+    | some h =>
+      match ss.hs0 with
+      | some h0 => (ss, if h = h0 then "ok" else "differs")
+      | none => ({ ss with h := some h }, "ok")
     | none => (ss, "parse-error")
   else if line == "hcheck" then
     match ss.d, ss.h with
